@@ -265,10 +265,12 @@ func reproduced(v *Violation, oc *replayOutcome) bool {
 			l := lines[k]
 			// skip file:line lines and the frames a panic in the test goroutine
 			// itself puts on top (recovered and re-panicked by package testing)
-			if l == "" || strings.HasPrefix(l, "\t") || strings.HasPrefix(l, "testing.") || strings.HasPrefix(l, "panic(") || strings.HasPrefix(l, "runtime.") {
-				if l == "" {
-					break
-				}
+			if l == "" {
+				break
+			}
+			// ... and frames of the standard library (the engine models those
+			// and reports their caller)
+			if strings.HasPrefix(l, "\t") || !strings.HasPrefix(l, modPath) {
 				continue
 			}
 			return strings.Contains(l, "."+fn+"(") || strings.Contains(l, "."+fn+".func")
